@@ -11,7 +11,7 @@ use crate::{catch, Args, Report};
 type Mm = BTreeMap<u8, Vec<u8>>;
 
 /// Uniform view of one index type with u8 keys and values.
-pub trait Ix: Default {
+pub trait Ix: Default + Send + Sync {
    const NAME: &'static str;
    /// values under a key form a set
    const SET_VALUED: bool = false;
@@ -255,8 +255,44 @@ pub struct Outcome {
 }
 
 pub fn run_history<T: Ix>(ops: &[Op]) -> Result<Outcome, String> {
-   // all three versions are created in the same pool, as generated code does
-   let (mut new, mut delta, mut total) = (T::default(), T::default(), T::default());
+   // all three versions are created in the same pool, as generated code does for the default provider
+   run_history_with::<T>(ops, T::default(), T::default(), T::default(), false)
+}
+
+fn pool_of(n: usize) -> std::sync::Arc<rayon::ThreadPool> {
+   static POOLS: std::sync::Mutex<BTreeMap<usize, std::sync::Arc<rayon::ThreadPool>>> = std::sync::Mutex::new(BTreeMap::new());
+   POOLS.lock().unwrap().entry(n).or_insert_with(|| std::sync::Arc::new(rayon::ThreadPoolBuilder::new().num_threads(n).build().unwrap())).clone()
+}
+
+/// The three versions are created in pools of different sizes (a custom provider that re-exports these types keeps the
+/// `total` created when the program value was constructed, while delta and new are created in the pool of `run()`), the
+/// history runs inside a fourth pool, and every insert is made by the worker whose index the operation selects.
+pub fn run_history_in_pools<T: Ix + Send>(ops: &[Op], pn: usize, pd: usize, pt: usize, px: usize) -> Result<Outcome, String> {
+   let new = pool_of(pn).install(T::default);
+   let delta = pool_of(pd).install(T::default);
+   let total = pool_of(pt).install(T::default);
+   let ops: Vec<Op> = ops.to_vec();
+   pool_of(px).install(move || run_history_with::<T>(&ops, new, delta, total, true))
+}
+
+/// runs `f` on the worker with index `target % current pool size` of the current pool
+fn on_worker<R: Send>(target: usize, f: impl FnOnce() -> R + Send) -> R {
+   let n = rayon::current_num_threads().max(1);
+   let cell = std::sync::Mutex::new((Some(f), None));
+   rayon::broadcast(|ctx| {
+      if ctx.index() == target % n {
+         let mut g = cell.lock().unwrap();
+         if let Some(f) = g.0.take() {
+            g.1 = Some(f());
+         }
+      }
+   });
+   let r = cell.into_inner().unwrap().1;
+   r.expect("broadcast reached the target worker")
+}
+
+fn run_history_with<T: Ix>(ops: &[Op], new: T, delta: T, total: T, spread: bool) -> Result<Outcome, String> {
+   let (mut new, mut delta, mut total) = (new, delta, total);
    let (mut mn, mut md, mut mt): (Mm, Mm, Mm) = Default::default();
    let mut out = Outcome { merges: 0, swap_path: false, no_swap_path: false, both_sides_key: false };
    for (step, op) in ops.iter().enumerate() {
@@ -287,11 +323,15 @@ pub fn run_history<T: Ix>(ops: &[Op]) -> Result<Outcome, String> {
                },
                Op::InsertIfAbsent(..) => continue,
                Op::InsertShared(..) if T::CONCURRENT => {
-                  catch(|| new.insert_shared(*k, *v)).map_err(|e| format!("{}: concurrent-path insert panicked: {e}", T::NAME))?;
+                  let target = (*k as usize) * 3 + *v as usize;
+                  catch(|| if spread { on_worker(target, || new.insert_shared(*k, *v)) } else { new.insert_shared(*k, *v) })
+                     .map_err(|e| format!("{}: concurrent-path insert panicked: {e}", T::NAME))?;
                   model_insert::<T>(&mut mn, *k, *v);
                },
                _ => {
-                  catch(|| new.insert_mut(*k, *v)).map_err(|e| format!("{}: insert panicked: {e}", T::NAME))?;
+                  let target = (*k as usize) * 3 + *v as usize;
+                  catch(|| if spread { on_worker(target, || new.insert_mut(*k, *v)) } else { new.insert_mut(*k, *v) })
+                     .map_err(|e| format!("{}: insert panicked: {e}", T::NAME))?;
                   model_insert::<T>(&mut mn, *k, *v);
                },
             }
@@ -381,9 +421,21 @@ fn run_type<T: Ix>(a: &Args, rep: &mut Report, cases: u32) {
    let n = std::cell::Cell::new(0u64);
    let nt = std::cell::Cell::new(0u64);
    let samples = std::cell::RefCell::new(vec![]);
-   let res = runner.run(&strat, |ops| {
+   let strat = (strat, proptest::collection::vec(0usize..4, 4..=4));
+   let pools_varied = std::cell::Cell::new(0u64);
+   let res = runner.run(&strat, |(ops, pools)| {
       n.set(n.get() + 1);
-      match run_history::<T>(&ops) {
+      // concurrent types: every second history with the versions created in pools of different sizes
+      let sizes = [1usize, 2, 3, 8];
+      let varied = T::CONCURRENT && pools[3] % 2 == 1;
+      let r = if varied {
+         pools_varied.set(pools_varied.get() + 1);
+         run_history_in_pools::<T>(&ops, sizes[pools[0]], sizes[pools[1]], sizes[pools[2]], sizes[(pools[0] + pools[3]) % 4])
+            .map_err(|e| format!("{e} [versions created in pools of {} (new), {} (delta), {} (total) threads]", sizes[pools[0]], sizes[pools[1]], sizes[pools[2]]))
+      } else {
+         run_history::<T>(&ops)
+      };
+      match r {
          Ok(o) => {
             if o.merges >= 2 && o.swap_path && o.no_swap_path && o.both_sides_key {
                nt.set(nt.get() + 1);
@@ -403,6 +455,9 @@ fn run_type<T: Ix>(a: &Args, rep: &mut Report, cases: u32) {
    rep.nontrivial += nt.get();
    rep.count(&format!("histories:{}", T::NAME), n.get());
    rep.count("histories_with_2+_merges_both_swap_paths_and_a_key_on_both_sides", nt.get());
+   if T::CONCURRENT {
+      rep.count("histories_with_versions_created_in_pools_of_different_sizes", pools_varied.get());
+   }
    if rep.samples.len() < 4 {
       rep.samples.extend(samples.into_inner());
    }
@@ -426,13 +481,16 @@ fn concurrent_rounds(a: &Args, rep: &mut Report, rounds: u32) {
       let perturb = next() | 1;
       // overlapping batches: every worker inserts the same (key, value) pairs plus its own
       let batch: Vec<(u8, u8)> = (0..(8 + next() % 24)).map(|_| ((next() % 6) as u8, (next() % 6) as u8)).collect();
+      // the indices are created under a pool that may be smaller than the one whose workers insert (a provider's index
+      // created when the program value was constructed, filled by run() in a larger pool)
+      let made_in = [1usize, 2, 8][(next() % 3) as usize];
+      let plain_threads = (next() % 3) as usize * 2;
       let res = catch(|| {
+         let (ci, cl, cn, cf) = pool_of(made_in).install(|| {
+            (CRelIndex::<(u8,), (u8,)>::default(), CLatIndex::<(u8,), (u8,)>::default(), CRelNoIndex::<(u8,)>::default(), CRelFullIndex::<(u8,), u8>::default())
+         });
          pool.install(|| {
             ascent::internal::verif::perturb_arm(perturb);
-            let ci = CRelIndex::<(u8,), (u8,)>::default();
-            let cl = CLatIndex::<(u8,), (u8,)>::default();
-            let cn = CRelNoIndex::<(u8,)>::default();
-            let cf = CRelFullIndex::<(u8,), u8>::default();
             let wins = std::sync::atomic::AtomicUsize::new(0);
             let race_key = (next() % 6) as u8;
             (0..threads * 3).into_par_iter().for_each(|w| {
@@ -444,6 +502,16 @@ fn concurrent_rounds(a: &Args, rep: &mut Report, rounds: u32) {
                CRelIndexWrite::index_insert(&ci, (100 + w as u8,), (w as u8,));
                if CRelFullIndexWrite::insert_if_not_present(&cf, &(race_key,), w as u8) {
                   wins.fetch_add(1, std::sync::atomic::Ordering::SeqCst);
+               }
+            });
+            // threads that are not workers of any pool insert as well
+            std::thread::scope(|sc| {
+               for _ in 0..plain_threads {
+                  sc.spawn(|| {
+                     for (_, v) in &batch {
+                        CRelIndexWrite::index_insert(&cn, (), (*v,));
+                     }
+                  });
                }
             });
             ascent::internal::verif::perturb_arm(0);
@@ -485,8 +553,11 @@ fn concurrent_rounds(a: &Args, rep: &mut Report, rounds: u32) {
                }
             }
             let got_n = RelIndexRead::index_get(&cn, &()).map(|it| it.count()).unwrap_or(0);
-            if got_n != batch.len() * workers {
-               errs.push(format!("CRelNoIndex holds {got_n} entries, {} were inserted", batch.len() * workers));
+            if got_n != batch.len() * (workers + plain_threads) {
+               errs.push(format!(
+                  "CRelNoIndex (created under {made_in} threads, filled by {threads} workers and {plain_threads} plain threads) holds {got_n} entries, {} were inserted",
+                  batch.len() * (workers + plain_threads)
+               ));
             }
             let w = wins.load(std::sync::atomic::Ordering::SeqCst);
             if w != 1 {
@@ -524,7 +595,7 @@ pub fn run(a: &Args, rep: &mut Report) {
    run_type::<CRelFullIndex<(u8,), u8>>(a, rep, cases);
    run_type::<CRelNoIndex<(u8,)>>(a, rep, cases);
    concurrent_rounds(a, rep, if a.tier == "quick" { 400 } else { 6000 });
-   rep.notes.push("RelIndexCombined is exercised over (total, delta) of every type; all three versions of a type are created in one pool".into());
+   rep.notes.push("RelIndexCombined is exercised over (total, delta) of every type; for the concurrent types every second history creates the three versions in pools of different sizes and makes each insert on a chosen worker; the concurrent rounds create the indices under 1, 2 or 8 threads and fill them from 2-8 workers plus plain threads".into());
 }
 
 /// the eight index types by number (fuzz targets and replays)
